@@ -96,3 +96,28 @@ def min_count_adversary(recs, res, module, exact, exists_bound=None):
     for a in adv:
         res.clause("MinimalCount" if kind[a["id"]] == "Minimal" else "SolutionExistsButUnsolved", 1, 0)
     return wit
+
+
+def reach_adversary(module, adv, res, clause):
+    """adv: records with `bound` and `expect` in {"reach","unreach"}; TLC decides reachability of the goal within
+    the bound; a mismatch is a violation of `clause` (extra carries what TLC found)."""
+    wit = adversary(module, adv, res)
+    for a in adv:
+        got = a["id"] in wit
+        ok = got == (a["expect"] == "reach")
+        res.clause(clause, 1, 0 if ok else 1)
+        if not ok:
+            res.violation(clause, a, {"expected": a["expect"], "tlc": "goal reached with " + str(wit[a["id"]][0][2]) + " routes"
+                                      if got else "goal unreachable within bound " + str(a["bound"])})
+    return wit
+
+
+def drive_substrate(insts, limit=60):
+    sc = vlib.scratch_dir()
+    src = os.path.join(sc, "inst.ndjson")
+    dst = os.path.join(sc, "obs.ndjson")
+    vlib.write_ndjson(src, insts)
+    vlib.run_harness("drive_substrate.py", [src, dst, limit])
+    recs = vlib.read_ndjson(dst)
+    shutil.rmtree(sc, ignore_errors=True)
+    return recs
